@@ -144,6 +144,40 @@ pub enum Op {
     MerkleVerify { leaf: Vec<usize>, index: usize, height: usize, root: Vec<usize>, siblings: Vec<usize> },
     /// add_lookup_from_index(x, table)
     Lookup(usize, usize),
+    // --- less common gadgets
+    /// wide_arithmetic_extension(a, b, c, d, e) = a*b + c*d + e
+    WideArithExt(usize, usize, usize, usize, usize),
+    /// inner_product_extension(k, acc, pairs) = acc + k * sum a_i b_i
+    InnerProductExt(u64, usize, Vec<(usize, usize)>),
+    DivAddExt(usize, usize, usize),
+    MulSubExt(usize, usize, usize),
+    /// scalar_mul_add_extension(a: base, b, c) = a*b + c
+    ScalarMulAddExt(usize, usize, usize),
+    ScalarMulSubExt(usize, usize, usize),
+    MulConstAddExt(u64, usize, usize),
+    AddConstExt(usize, u64),
+    MulConstExt(u64, usize),
+    MulExtWithConst(u64, usize, usize),
+    AddManyExt(Vec<usize>),
+    /// exp_extension_from_bits(base, split_le(x, n))
+    ExpBitsExt(usize, usize, usize),
+    /// x.repeated_frobenius(k)
+    FrobeniusExt(usize, usize),
+    /// select_ext_generalized(b, x, y) = b*x - (b*y - y), b any extension value
+    SelectExtGen(usize, usize, usize),
+    /// conditional_assert_eq_ext(c, x, y)
+    CondAssertEqExt(usize, usize, usize),
+    ConnectExt(usize, usize),
+    /// permute::<PoseidonHash>(12 values): 12 results
+    Permute(Vec<usize>),
+    /// verify_merkle_proof_to_cap: index has `height + cap_height` bits, `cap` = 4 * 2^cap_height values
+    MerkleVerifyCap { leaf: Vec<usize>, index: usize, height: usize, cap_height: usize, cap: Vec<usize>, siblings: Vec<usize> },
+    /// random_access_hash(index, hashes): `hashes` = 4 * len values; 4 results
+    RandomAccessHash(usize, Vec<usize>),
+    /// PolynomialCoeffsExtTarget(coeffs).eval_scalar(point: base)
+    PolyEvalScalar(Vec<usize>, usize),
+    /// builder.powers(base): the first n powers (n results)
+    Powers(usize, usize),
 }
 
 #[derive(Clone, Debug, Serialize, PartialEq, Eq)]
@@ -542,6 +576,104 @@ impl Program {
                     let hit = self.tables[*t].iter().find(|(i, _)| *i as u64 == xv)?;
                     res.push(RVal::B(hit.1 as u64));
                 }
+                Op::WideArithExt(a, bb, c, d, ee) => {
+                    res.push(RVal::E(eadd(eadd(emul(e(&st, *a), e(&st, *bb)), emul(e(&st, *c), e(&st, *d))), e(&st, *ee))))
+                }
+                Op::InnerProductExt(k, acc, pairs) => {
+                    let mut a = e(&st, *acc);
+                    for (x, y) in pairs {
+                        let m = emul(e(&st, *x), e(&st, *y));
+                        a = eadd([mulm(rm(*k), m[0]), mulm(rm(*k), m[1])], a);
+                    }
+                    res.push(RVal::E(a))
+                }
+                Op::DivAddExt(x, y, z) => res.push(RVal::E(eadd(emul(e(&st, *x), ext_inv2(e(&st, *y))?), e(&st, *z)))),
+                Op::MulSubExt(x, y, z) => res.push(RVal::E(esub(emul(e(&st, *x), e(&st, *y)), e(&st, *z)))),
+                Op::ScalarMulAddExt(a, x, y) => res.push(RVal::E(eadd(emul([b(&st, *a), 0], e(&st, *x)), e(&st, *y)))),
+                Op::ScalarMulSubExt(a, x, y) => res.push(RVal::E(esub(emul([b(&st, *a), 0], e(&st, *x)), e(&st, *y)))),
+                Op::MulConstAddExt(k, x, y) => res.push(RVal::E(eadd(emul([rm(*k), 0], e(&st, *x)), e(&st, *y)))),
+                Op::AddConstExt(x, k) => res.push(RVal::E(eadd(e(&st, *x), [rm(*k), 0]))),
+                Op::MulConstExt(k, x) => res.push(RVal::E(emul([rm(*k), 0], e(&st, *x)))),
+                Op::MulExtWithConst(k, x, y) => res.push(RVal::E(emul([rm(*k), 0], emul(e(&st, *x), e(&st, *y))))),
+                Op::AddManyExt(v) => res.push(RVal::E(v.iter().fold([0, 0], |a, i| eadd(a, e(&st, *i))))),
+                Op::ExpBitsExt(base, x, n) => {
+                    let xv = b(&st, *x);
+                    bits_of(xv, *n)?;
+                    res.push(RVal::E(epow(e(&st, *base), xv)))
+                }
+                Op::FrobeniusExt(x, k) => {
+                    // X^p = X * W^((p-1)/2) = -X for the non-residue W = 7
+                    let v = e(&st, *x);
+                    res.push(RVal::E(if k % 2 == 1 { [v[0], negm(v[1])] } else { v }))
+                }
+                Op::SelectExtGen(c, x, y) => {
+                    let (cv, xv, yv) = (e(&st, *c), e(&st, *x), e(&st, *y));
+                    res.push(RVal::E(esub(emul(cv, xv), esub(emul(cv, yv), yv))))
+                }
+                Op::CondAssertEqExt(c, x, y) => {
+                    let cv = b(&st, *c);
+                    let d = esub(e(&st, *x), e(&st, *y));
+                    if mulm(cv, d[0]) != 0 || mulm(cv, d[1]) != 0 {
+                        return None;
+                    }
+                }
+                Op::ConnectExt(x, y) => {
+                    if e(&st, *x) != e(&st, *y) {
+                        return None;
+                    }
+                }
+                Op::Permute(v) => {
+                    let mut s12 = [0u64; 12];
+                    for (i, ix) in v.iter().enumerate() {
+                        s12[i] = b(&st, *ix);
+                    }
+                    for h in ref_poseidon(&s12) {
+                        res.push(RVal::B(h));
+                    }
+                }
+                Op::MerkleVerifyCap { leaf, index, height, cap_height, cap, siblings } => {
+                    let lv: Vec<u64> = leaf.iter().map(|i| b(&st, *i)).collect();
+                    let iv = b(&st, *index);
+                    let bits = bits_of(iv, height + cap_height)?;
+                    let mut cur = ref_hash_or_noop(&lv);
+                    for lvl in 0..*height {
+                        let sib: Vec<u64> = siblings[4 * lvl..4 * lvl + 4].iter().map(|i| b(&st, *i)).collect();
+                        cur = if bits[lvl] { ref_two_to_one(&sib, &cur) } else { ref_two_to_one(&cur, &sib) };
+                    }
+                    let ci = (iv >> height) as usize;
+                    let entry: Vec<u64> = cap[4 * ci..4 * ci + 4].iter().map(|i| b(&st, *i)).collect();
+                    if cur != entry {
+                        return None;
+                    }
+                }
+                Op::RandomAccessHash(ix, hs) => {
+                    let i = b(&st, *ix);
+                    let len = hs.len() / 4;
+                    let padded = len.next_power_of_two();
+                    if padded > 1 && i >= padded as u64 {
+                        return None;
+                    }
+                    let j = if padded == 1 { 0 } else { (i as usize).min(len - 1) };
+                    for k in 0..4 {
+                        res.push(RVal::B(b(&st, hs[4 * j + k])));
+                    }
+                }
+                Op::PolyEvalScalar(coeffs, pt) => {
+                    let p = [b(&st, *pt), 0];
+                    let mut acc = [0, 0];
+                    for c in coeffs.iter().rev() {
+                        acc = eadd(emul(acc, p), e(&st, *c));
+                    }
+                    res.push(RVal::E(acc))
+                }
+                Op::Powers(base, n) => {
+                    let bv = e(&st, *base);
+                    let mut cur = [1, 0];
+                    for _ in 0..*n {
+                        res.push(RVal::E(cur));
+                        cur = emul(cur, bv);
+                    }
+                }
             }
             st.extend(res);
         }
@@ -810,6 +942,116 @@ pub fn build_program<Cfg: GenericConfig<D, F = F>>(prog: &Program, config: &Circ
                 builder.verify_merkle_proof::<PoseidonHash>(lv, &bits, root_t, &MerkleProofTarget { siblings: sibs });
             }
             Op::Lookup(x, t) => res.push(TVal::B(builder.add_lookup_from_index(tb(&st, *x), lut_ids[*t]))),
+            Op::WideArithExt(a, b, c, d, e) => {
+                let (a, b, c, d, e) = (te(&mut builder, &st, *a), te(&mut builder, &st, *b), te(&mut builder, &st, *c), te(&mut builder, &st, *d), te(&mut builder, &st, *e));
+                res.push(TVal::E(builder.wide_arithmetic_extension(a, b, c, d, e)))
+            }
+            Op::InnerProductExt(k, acc, pairs) => {
+                let acc = te(&mut builder, &st, *acc);
+                let ps: Vec<(ExtensionTarget<D>, ExtensionTarget<D>)> = pairs.iter().map(|(x, y)| (te(&mut builder, &st, *x), te(&mut builder, &st, *y))).collect();
+                res.push(TVal::E(builder.inner_product_extension(fe(rm(*k)), acc, ps)))
+            }
+            Op::DivAddExt(x, y, z) => {
+                let (a, b, c) = (te(&mut builder, &st, *x), te(&mut builder, &st, *y), te(&mut builder, &st, *z));
+                res.push(TVal::E(builder.div_add_extension(a, b, c)))
+            }
+            Op::MulSubExt(x, y, z) => {
+                let (a, b, c) = (te(&mut builder, &st, *x), te(&mut builder, &st, *y), te(&mut builder, &st, *z));
+                res.push(TVal::E(builder.mul_sub_extension(a, b, c)))
+            }
+            Op::ScalarMulAddExt(a, x, y) => {
+                let (b, c) = (te(&mut builder, &st, *x), te(&mut builder, &st, *y));
+                res.push(TVal::E(builder.scalar_mul_add_extension(tb(&st, *a), b, c)))
+            }
+            Op::ScalarMulSubExt(a, x, y) => {
+                let (b, c) = (te(&mut builder, &st, *x), te(&mut builder, &st, *y));
+                res.push(TVal::E(builder.scalar_mul_sub_extension(tb(&st, *a), b, c)))
+            }
+            Op::MulConstAddExt(k, x, y) => {
+                let (b, c) = (te(&mut builder, &st, *x), te(&mut builder, &st, *y));
+                res.push(TVal::E(builder.mul_const_add_extension(fe(rm(*k)), b, c)))
+            }
+            Op::AddConstExt(x, k) => {
+                let a = te(&mut builder, &st, *x);
+                res.push(TVal::E(builder.add_const_extension(a, fe(rm(*k)))))
+            }
+            Op::MulConstExt(k, x) => {
+                let a = te(&mut builder, &st, *x);
+                res.push(TVal::E(builder.mul_const_extension(fe(rm(*k)), a)))
+            }
+            Op::MulExtWithConst(k, x, y) => {
+                let (a, b) = (te(&mut builder, &st, *x), te(&mut builder, &st, *y));
+                res.push(TVal::E(builder.mul_extension_with_const(fe(rm(*k)), a, b)))
+            }
+            Op::AddManyExt(v) => {
+                let ts: Vec<ExtensionTarget<D>> = v.iter().map(|i| te(&mut builder, &st, *i)).collect();
+                res.push(TVal::E(builder.add_many_extension(ts)))
+            }
+            Op::ExpBitsExt(base, x, n) => {
+                let bits = builder.split_le(tb(&st, *x), *n);
+                let bt = te(&mut builder, &st, *base);
+                res.push(TVal::E(builder.exp_extension_from_bits(bt, &bits)))
+            }
+            Op::FrobeniusExt(x, k) => {
+                let a = te(&mut builder, &st, *x);
+                res.push(TVal::E(a.repeated_frobenius(*k, &mut builder)))
+            }
+            Op::SelectExtGen(c, x, y) => {
+                let (c, a, b) = (te(&mut builder, &st, *c), te(&mut builder, &st, *x), te(&mut builder, &st, *y));
+                res.push(TVal::E(builder.select_ext_generalized(c, a, b)))
+            }
+            Op::CondAssertEqExt(c, x, y) => {
+                let (a, b) = (te(&mut builder, &st, *x), te(&mut builder, &st, *y));
+                builder.conditional_assert_eq_ext(tb(&st, *c), a, b)
+            }
+            Op::ConnectExt(x, y) => {
+                let (a, b) = (te(&mut builder, &st, *x), te(&mut builder, &st, *y));
+                builder.connect_extension(a, b)
+            }
+            Op::Permute(v) => {
+                use plonky2::hash::hashing::PlonkyPermutation;
+                use plonky2::plonk::config::AlgebraicHasher;
+                let ts: Vec<Target> = v.iter().map(|i| tb(&st, *i)).collect();
+                let perm = <PoseidonHash as AlgebraicHasher<F>>::AlgebraicPermutation::new(ts);
+                let out = builder.permute::<PoseidonHash>(perm);
+                for t in out.as_ref() {
+                    res.push(TVal::B(*t));
+                }
+            }
+            Op::MerkleVerifyCap { leaf, index, height, cap_height, cap, siblings } => {
+                let lv: Vec<Target> = leaf.iter().map(|i| tb(&st, *i)).collect();
+                let bits = builder.split_le(tb(&st, *index), height + cap_height);
+                let cap_t = plonky2::hash::hash_types::MerkleCapTarget(
+                    (0..(1usize << cap_height))
+                        .map(|c| HashOutTarget { elements: [tb(&st, cap[4 * c]), tb(&st, cap[4 * c + 1]), tb(&st, cap[4 * c + 2]), tb(&st, cap[4 * c + 3])] })
+                        .collect(),
+                );
+                let sibs: Vec<HashOutTarget> = (0..*height)
+                    .map(|l| HashOutTarget { elements: [tb(&st, siblings[4 * l]), tb(&st, siblings[4 * l + 1]), tb(&st, siblings[4 * l + 2]), tb(&st, siblings[4 * l + 3])] })
+                    .collect();
+                builder.verify_merkle_proof_to_cap::<PoseidonHash>(lv, &bits, &cap_t, &MerkleProofTarget { siblings: sibs });
+            }
+            Op::RandomAccessHash(ix, hs) => {
+                let hashes: Vec<HashOutTarget> = (0..hs.len() / 4)
+                    .map(|j| HashOutTarget { elements: [tb(&st, hs[4 * j]), tb(&st, hs[4 * j + 1]), tb(&st, hs[4 * j + 2]), tb(&st, hs[4 * j + 3])] })
+                    .collect();
+                let h = builder.random_access_hash(tb(&st, *ix), hashes);
+                for t in h.elements {
+                    res.push(TVal::B(t));
+                }
+            }
+            Op::PolyEvalScalar(coeffs, pt) => {
+                let ts: Vec<ExtensionTarget<D>> = coeffs.iter().map(|i| te(&mut builder, &st, *i)).collect();
+                let poly = plonky2::gadgets::polynomial::PolynomialCoeffsExtTarget(ts);
+                res.push(TVal::E(poly.eval_scalar(&mut builder, tb(&st, *pt))))
+            }
+            Op::Powers(base, n) => {
+                let bt = te(&mut builder, &st, *base);
+                let mut pw = builder.powers(bt);
+                for _ in 0..*n {
+                    res.push(TVal::E(pw.next(&mut builder)));
+                }
+            }
         }
         for r in &res {
             match r {
